@@ -85,14 +85,16 @@ var _ netmc.MinecraftConn = (*fakeConn)(nil)
 type node struct {
 	parent   int
 	name     string
-	req      int // 0 = none
+	req      int // 0 = none, -1 = the requirement function panics for the player, else permission id
 	redirect int // -1 = none, 0 = root, else id
 }
 
 func (n node) token() string {
 	req, red := "-", "-"
-	if n.req != 0 {
+	if n.req > 0 {
 		req = strconv.Itoa(n.req)
+	} else if n.req < 0 {
+		req = "!"
 	}
 	if n.redirect >= 0 {
 		red = strconv.Itoa(n.redirect)
@@ -106,7 +108,9 @@ func parseTree(s string) []node {
 		f := strings.Split(tok, ":")
 		n := node{name: f[1], redirect: -1}
 		n.parent, _ = strconv.Atoi(f[0])
-		if f[2] != "-" {
+		if f[2] == "!" {
+			n.req = -1
+		} else if f[2] != "-" {
 			n.req, _ = strconv.Atoi(f[2])
 		}
 		if f[3] != "-" {
@@ -155,9 +159,15 @@ func buildInto(root *brigodier.RootCommandNode, nodes []node) map[string]int {
 		} else {
 			b = brigodier.Literal(n.name).NodeBuilder()
 		}
-		if n.req != 0 {
+		if n.req > 0 {
 			perm := "p" + strconv.Itoa(n.req)
 			b = b.Requires(command.Requires(func(c *command.RequiresContext) bool { return c.Source.HasPermission(perm) }))
+		} else if n.req < 0 {
+			// a plugin-supplied requirement that fails for this player (missing per-player record)
+			b = b.Requires(command.Requires(func(c *command.RequiresContext) bool {
+				var record map[string]*struct{ admin bool }
+				return record[c.Source.(proxy.Player).Username()].admin
+			}))
 		}
 		b = b.Executes(command.Command(func(*command.Context) error { return nil }))
 		if n.redirect >= 0 {
@@ -309,6 +319,11 @@ func probe(nodes []node, perms []int) string {
 
 func probeMain(arg string) {
 	debug.SetMaxStack(8 << 20)
+	defer func() {
+		if recover() != nil {
+			fmt.Println("panic") // a requirement's panic propagated out of filterNode
+		}
+	}()
 	parts := strings.SplitN(arg, "|", 2)
 	var perms []int
 	if parts[1] != "-" {
@@ -423,6 +438,8 @@ func genTree(r *hx.Rng, allowCycle bool) []node {
 			}
 			if r.Chance(35, 100) {
 				n.req = 1 + r.Intn(3)
+			} else if r.Chance(6, 100) {
+				n.req = -1
 			}
 			nodes = append(nodes, n)
 			id := len(nodes)
@@ -491,18 +508,20 @@ func backendTok(bs []bnode) string {
 func runTree(run *hx.Run, class string, nodes []node, perms []int, backends [][]bnode, probes *int) {
 	run.Case("tree", "tree "+treeTok(nodes), "ok")
 	run.Case("tree", "perms "+permsTok(perms), "ok")
+	// every judged line repeats tree and permissions, so that a reported case is a complete replay
+	ctx := " @tree=" + strings.ReplaceAll(treeTok(nodes), " ", ";") + " @perms=" + permsTok(perms)
 	if cyclic(nodes) {
 		if *probes <= 0 {
 			return
 		}
 		*probes--
-		run.Case(class+"/filter-probe", "filter", probe(nodes, perms))
+		run.Case(class+"/filter-probe", "filter"+ctx, probe(nodes, perms))
 		return
 	}
 	bt := build(nodes) // the proxy's tree is only read: one proxy serves the filter and every merge
-	run.Case(class+"/filter", "filter", hx.Guard(20*time.Second, func() string { return doFilter(bt, perms) }))
+	run.Case(class+"/filter", "filter"+ctx, hx.Guard(20*time.Second, func() string { return doFilter(bt, perms) }))
 	for _, b := range backends {
-		run.Case(class+"/merge", "merge "+backendTok(b), hx.Guard(20*time.Second, func() string { return doMerge(bt, perms, b) }))
+		run.Case(class+"/merge", "merge "+backendTok(b)+ctx, hx.Guard(20*time.Second, func() string { return doMerge(bt, perms, b) }))
 	}
 }
 
@@ -528,6 +547,16 @@ func main() {
 	runTree(run, "fixed", fixed, nil, bk, &probes)
 	runTree(run, "fixed", fixed, []int{1}, bk, &probes)
 	runTree(run, "fixed", fixed, []int{1, 2, 3}, bk, &probes)
+	// requirements that panic for this player: at the root level, nested, behind a redirect, behind a denied node
+	for _, pt := range [][]node{
+		{{0, "server", 0, -1}, {0, "admin", -1, -1}, {2, "n3", 0, -1}},
+		{{0, "server", 0, -1}, {1, "n2", 0, -1}, {2, "n3", -1, -1}, {3, "n4", 0, -1}},
+		{{0, "server", 0, -1}, {0, "admin", 1, -1}, {2, "n3", -1, -1}, {0, "hub", 0, 3}},
+		{{0, "admin", 1, -1}, {1, "n2", -1, -1}, {0, "glist", 0, -1}},
+	} {
+		runTree(run, "fixed-panic", pt, nil, bk, &probes)
+		runTree(run, "fixed-panic", pt, []int{1}, bk, &probes)
+	}
 	// redirect back to the root below a usable node (brigadier's `execute … run` shape): filterNode never returns
 	cyc := []node{{0, "execute", 0, -1}, {1, "n2", 0, 0}}
 	runTree(run, "fixed-cycle", cyc, nil, nil, &probes)
